@@ -3,6 +3,7 @@
 
 use crate::ev::Ev;
 use crate::snap::{diff, facets, snapshot, DiffLine, Snap};
+use std::collections::BTreeMap;
 use crate::world::{StepRes, World};
 use serde::{Deserialize, Serialize};
 
@@ -773,6 +774,238 @@ impl Oracle for RestartOracle {
             ("dirty_restart_compared".into(), self.dirty_compared),
             ("restart_skipped_unevaluated_state".into(), self.skipped_stale),
         ]
+    }
+    fn last_hash(&self) -> u64 {
+        self.last
+    }
+}
+
+// ---------------------------------------------------------------------------
+// xlsx disk: C24 (round trip, writer faults) and C25 (damaged packages)
+
+/// facets of the observable snapshot that the C24 statement lists
+pub fn c24_facet(f: &str) -> bool {
+    !matches!(f, "wb.name" | "wb.theme" | "namedstyle" | "wb.locale" | "wb.tz")
+}
+
+/// Conditional-format priorities are an order, not numbers: the file format renumbers
+/// them 1..n per sheet. Replaces `prio=<n>` by the rank of n among the sheet's rules.
+pub fn rank_cf_priorities(s: &mut crate::snap::Snap) {
+    let mut by_sheet: BTreeMap<String, Vec<(i64, String)>> = BTreeMap::new();
+    for (k, v) in s.iter() {
+        if let Some(rest) = k.strip_prefix("cf@") {
+            let sheet = rest.split('#').next().unwrap_or("").to_string();
+            if let Some(p) = v.split(" prio=").nth(1).and_then(|x| x.split(' ').next()).and_then(|x| x.parse::<i64>().ok()) {
+                by_sheet.entry(sheet).or_default().push((p, k.clone()));
+            }
+        }
+    }
+    for (_, mut v) in by_sheet {
+        v.sort();
+        let mut rank = 0;
+        let mut last: Option<i64> = None;
+        for (p, k) in v {
+            if last != Some(p) {
+                rank += 1;
+                last = Some(p);
+            }
+            if let Some(val) = s.get_mut(&k) {
+                *val = val.replacen(&format!(" prio={p} "), &format!(" prio=#{rank} "), 1);
+            }
+        }
+    }
+}
+
+pub struct XlsxRoundTrip {
+    clean_compared: u64,
+    faulted_exports: u64,
+    faulted_export_errors: u64,
+    faulted_export_ok_compared: u64,
+    skipped_stale: u64,
+    last: u64,
+}
+
+impl XlsxRoundTrip {
+    pub fn new() -> XlsxRoundTrip {
+        XlsxRoundTrip { clean_compared: 0, faulted_exports: 0, faulted_export_errors: 0, faulted_export_ok_compared: 0, skipped_stale: 0, last: 0 }
+    }
+}
+
+impl Oracle for XlsxRoundTrip {
+    fn init(&mut self, _w: &World) {}
+    fn after(&mut self, w: &mut World, ev: &Ev, res: &StepRes, idx: usize) -> Verdict {
+        let kind = ev.kind();
+        if let Some(p) = &res.panic {
+            if matches!(ev, Ev::XlsxExportImport { .. }) {
+                let loc = p.rsplit("[at ").next().unwrap_or("").trim_end_matches(']').to_string();
+                return Verdict::Violation(Violation::simple("panic", idx, kind, &format!("panic@{loc}"), p.clone()));
+            }
+            return Verdict::Abandon(Abandon(format!("panic in {kind}: {p}")));
+        }
+        let plan = match ev {
+            Ev::XlsxExportImport { plan } => plan,
+            _ => return Verdict::Ok,
+        };
+        if w.primary.stale {
+            self.skipped_stale += 1;
+            return Verdict::Ok;
+        }
+        let faulted = !plan.is_none();
+        if faulted {
+            self.faulted_exports += 1;
+        }
+        match &res.aux {
+            Some(crate::world::Aux::ExportFailed(e)) => {
+                if faulted {
+                    self.faulted_export_errors += 1;
+                    Verdict::Ok
+                } else {
+                    Verdict::Violation(Violation::simple("export-error", idx, kind, "result", format!("export failed without any injected fault: {e}")))
+                }
+            }
+            Some(crate::world::Aux::ImportFailed { damaged: Some(d), .. }) | Some(crate::world::Aux::Imported { damaged: Some(d), .. }) => {
+                Verdict::Violation(Violation::simple(
+                    "export-ok-but-damaged",
+                    idx,
+                    kind,
+                    "result",
+                    format!("save_xlsx_to_writer returned Ok under injected write faults but the disk does not hold the fault-free export: {d}"),
+                ))
+            }
+            Some(crate::world::Aux::ImportFailed { error, bytes_len, .. }) => Verdict::Violation(Violation::simple(
+                "import-error",
+                idx,
+                kind,
+                "result",
+                format!("save_xlsx_to_writer returned Ok ({bytes_len} bytes) but the file does not import: {error}"),
+            )),
+            Some(crate::world::Aux::Imported { model, .. }) => {
+                let mut a = crate::snap::restrict(&snapshot(&w.primary), c24_facet);
+                let mut b = crate::snap::restrict(&crate::snap::snapshot_model(model, None, &crate::snap::SnapOpts::default()), c24_facet);
+                rank_cf_priorities(&mut a);
+                rank_cf_priorities(&mut b);
+                self.last = crate::snap::hash(&a);
+                if faulted {
+                    self.faulted_export_ok_compared += 1;
+                } else {
+                    self.clean_compared += 1;
+                }
+                let d = diff(&a, &b);
+                if d.is_empty() {
+                    Verdict::Ok
+                } else {
+                    Verdict::Violation(Violation::from_diff(
+                        "xlsx-round-trip",
+                        idx,
+                        idx,
+                        kind,
+                        d,
+                        "the workbook imported from the exported xlsx differs from the exported one (expected = exported, actual = imported)".into(),
+                    ))
+                }
+            }
+            _ => Verdict::Ok,
+        }
+    }
+    fn exercised(&self) -> u64 {
+        self.clean_compared + self.faulted_exports
+    }
+    fn counters(&self) -> Vec<(String, u64)> {
+        vec![
+            ("fault_free_round_trips_compared".into(), self.clean_compared),
+            ("exports_with_write_faults".into(), self.faulted_exports),
+            ("faulted_exports_that_returned_err".into(), self.faulted_export_errors),
+            ("faulted_exports_that_returned_ok_and_were_compared".into(), self.faulted_export_ok_compared),
+            ("skipped_unevaluated_state".into(), self.skipped_stale),
+        ]
+    }
+    fn last_hash(&self) -> u64 {
+        self.last
+    }
+}
+
+pub struct CorruptImportOracle {
+    attempts: u64,
+    imported: u64,
+    rejected: u64,
+    reader_faults: u64,
+    kinds: std::collections::BTreeMap<String, u64>,
+    last: u64,
+}
+
+impl CorruptImportOracle {
+    pub fn new() -> CorruptImportOracle {
+        CorruptImportOracle { attempts: 0, imported: 0, rejected: 0, reader_faults: 0, kinds: Default::default(), last: 0 }
+    }
+}
+
+pub fn corrupt_kind(c: &crate::xlsxfault::Corrupt) -> &'static str {
+    use crate::xlsxfault::Corrupt::*;
+    match c {
+        None => "none",
+        Truncate { .. } => "truncate",
+        ZeroBlock { .. } => "zero-block",
+        BitFlips { .. } => "bit-flips",
+        DropEntry { .. } => "drop-entry",
+        DuplicateEntry { .. } => "duplicate-entry",
+        SwapEntries { .. } => "swap-entries",
+        EmptyEntry { .. } => "empty-entry",
+        TruncateXml { .. } => "truncate-xml",
+        DropElement { .. } => "drop-element",
+        DropAttr { .. } => "drop-attribute",
+        SetAttr { .. } => "set-attribute",
+        SetText { .. } => "set-text",
+        DeepNest { .. } => "deep-nest",
+        Garbage { .. } => "garbage",
+    }
+}
+
+impl Oracle for CorruptImportOracle {
+    fn init(&mut self, _w: &World) {}
+    fn after(&mut self, _w: &mut World, ev: &Ev, res: &StepRes, idx: usize) -> Verdict {
+        let kind = ev.kind();
+        let (corrupt, read) = match ev {
+            Ev::CorruptImport { corrupt, read, .. } => (corrupt, read),
+            _ => {
+                if let Some(p) = &res.panic {
+                    return Verdict::Abandon(Abandon(format!("panic in {kind}: {p}")));
+                }
+                return Verdict::Ok;
+            }
+        };
+        self.attempts += 1;
+        let ck = corrupt_kind(corrupt);
+        *self.kinds.entry(format!("corrupt_{ck}")).or_insert(0) += 1;
+        if read.is_some() {
+            *self.kinds.entry("reader_fault_plan".into()).or_insert(0) += 1;
+        }
+        if let Some(p) = &res.panic {
+            let loc = p.rsplit("[at ").next().unwrap_or("").trim_end_matches(']').to_string();
+            return Verdict::Violation(Violation::simple("import-panic", idx, kind, &format!("panic@{loc}"), format!("importing a damaged package ({ck}) panicked: {p}")));
+        }
+        if let Some(crate::world::Aux::Corrupted { imported, reader_faults, bytes_len, .. }) = &res.aux {
+            self.last = *bytes_len as u64;
+            self.reader_faults += reader_faults;
+            if *imported {
+                self.imported += 1;
+            } else {
+                self.rejected += 1;
+            }
+        }
+        Verdict::Ok
+    }
+    fn exercised(&self) -> u64 {
+        self.attempts
+    }
+    fn counters(&self) -> Vec<(String, u64)> {
+        let mut v = vec![
+            ("damaged_packages_imported".into(), self.attempts),
+            ("import_returned_ok".into(), self.imported),
+            ("import_returned_err".into(), self.rejected),
+            ("reader_faults_fired".into(), self.reader_faults),
+        ];
+        v.extend(self.kinds.iter().map(|(k, c)| (k.clone(), *c)));
+        v
     }
     fn last_hash(&self) -> u64 {
         self.last
